@@ -395,9 +395,6 @@ func count(fs []frame, name string) int {
 }
 
 func build(leafIdx int, ctxIdx []int, mode int) (kase, bool) {
-	if leafIdx >= len(leaves) { // the product runs over leaves followed by loadLeaves (rejected.go)
-		return buildLeaf(loadLeaves[leafIdx-len(leaves)], loadFiles, ctxIdx, mode)
-	}
 	return buildLeaf(leaves[leafIdx], nil, ctxIdx, mode)
 }
 
@@ -422,8 +419,7 @@ func run(r *core.Run) {
 		depth = 3
 	}
 	r.Bound("context_depth", depth)
-	nLeaves := len(leaves) + len(loadLeaves)
-	r.Bound("error_kinds", nLeaves)
+	r.Bound("error_kinds", len(leaves))
 	r.Bound("contexts", len(contexts))
 	r.Bound("layouts", 3)
 	r.Rule("every error kind (unbound symbol, package-qualified unbound symbol as a value and as an operator, symbol of an unknown package, an unbound symbol handed as a function designator to funcall / apply / map / foldl, a binding form rejecting a name at bind time after its value forms ran (let / let* / flet / dotimes), (error ..), builtin type error, wrong arity, error inside a called function, a failing form written in a macro template, a failing form a macro built with list, set! of an unbound name, non-tail and tail recursion ending in an error) at every position of every nesting up to the depth bound of 31 contexts (argument positions, let/let* value and body, if test/branches, cond test/body, progn, lambda call, funcall, apply, map callback, labels, flet, handler-bind body, inside a handler, dotimes, thread-first, thunk, macro template argument, macro built argument, rethrown), each in 3 source layouts; plus every error kind x every context loaded from lisp through load-string / load-bytes (bare and under a rethrowing handler, elimination on and off) against the same source loaded by the host; plus every error kind x every context with the definitions and the failing expression in two differently named sources of one runtime (the library as one source, and as one source per form so that every source starts at the same position), against the same text loaded as one source. Non-trivial = the program fails; distinct by source text")
@@ -441,13 +437,13 @@ func run(r *core.Run) {
 		}
 	}
 	rec(nil)
-	total := int64(nLeaves * len(seqs) * 3)
+	total := int64(len(leaves) * len(seqs) * 3)
 	r.Bound("programs", total)
 	core.ParallelRange(r, total, nil, func(_ struct{}, i int64) {
 		mode := int(i % 3)
 		rest := i / 3
-		li := int(rest % int64(nLeaves))
-		si := rest / int64(nLeaves)
+		li := int(rest % int64(len(leaves)))
+		si := rest / int64(len(leaves))
 		k, ok := build(li, seqs[si], mode)
 		if !ok {
 			return
@@ -481,7 +477,7 @@ func run(r *core.Run) {
 		}
 		r.Violate("c18", full, k, "location = the blamed form, trace = the active calls", detail, "")
 	})
-	r.AddStates(int64(len(seqs) * nLeaves))
+	r.AddStates(int64(len(seqs) * len(leaves)))
 	nestedLoads(r)
 	multiSources(r)
 	rejectedLoads(r)
